@@ -132,6 +132,73 @@ func c17Concurrent(e *hk.Env, one func(base, p string) string) {
 	e.Stats["concurrent_results_differing_from_sequential"] = nd
 }
 
+// c17OnDisk: the property is about the returned PATH; what lies on disk must not matter. Real base directories in a
+// sandbox under .build: ordinary files, symbolic links at and beneath the base that lead outside it (to a directory, to
+// a file, upwards), a dangling link, a link to itself, and the base itself reached through a symbolic link; absolute
+// and relative spellings (cwd inside the sandbox). Every call is an ordinary judged case.
+func c17OnDisk(e *hk.Env, one func(base, p string) string) error {
+	verifDir := os.Getenv("VERIF_DIR")
+	if verifDir == "" {
+		verifDir = "/verif"
+	}
+	buildDir := filepath.Join(verifDir, ".build")
+	os.MkdirAll(buildDir, 0o755)
+	root, err := os.MkdirTemp(buildDir, "verif-c17-")
+	if err != nil {
+		return err
+	}
+	defer os.RemoveAll(root)
+	mk := func(rel, content string) {
+		p := filepath.Join(root, rel)
+		os.MkdirAll(filepath.Dir(p), 0o755)
+		os.WriteFile(p, []byte(content), 0o644)
+	}
+	ln := func(target, rel string) {
+		p := filepath.Join(root, rel)
+		os.MkdirAll(filepath.Dir(p), 0o755)
+		os.Symlink(target, p)
+	}
+	mk("outside/secret.txt", "secret")
+	mk("outside/etc/passwd", "root:x:0:0")
+	mk("www/index.html", "<html>")
+	mk("www/static/app.js", "js")
+	mk("www/sub/deeper/file.txt", "f")
+	ln("../outside", "www/rootfs")                          // relative link to a directory outside
+	ln(filepath.Join(root, "outside"), "www/abs")           // absolute link to a directory outside
+	ln("../outside/secret.txt", "www/leak.txt")             // link to a file outside
+	ln("../../..", "www/sub/deeper/up")                     // link upwards, above the base
+	ln("nowhere/at/all", "www/dangling")                    // dangling
+	ln(".", "www/self")                                     // link to the base itself
+	ln("static", "www/inner")                               // harmless link inside the base
+	ln("www", "current")                                    // the base itself behind a link
+	ln(filepath.Join(root, "www", "static"), "deploy/base") // a base that is a link to a subdirectory
+	origWd, werr := os.Getwd()
+	if werr != nil {
+		origWd = "/"
+	}
+	if err := os.Chdir(root); err != nil {
+		return err
+	}
+	defer os.Chdir(origWd)
+	bases := []string{filepath.Join(root, "www"), filepath.Join(root, "www") + "/", filepath.Join(root, "current"), filepath.Join(root, "deploy/base"),
+		filepath.Join(root, "www/sub/../../www"), "www", "./www/", "current", "deploy/base", "www/sub/deeper"}
+	paths := []string{"", "/", "/index.html", "index.html", "/static/app.js", "static/app.js", "/rootfs", "/rootfs/", "/rootfs/etc", "/rootfs/etc/passwd",
+		"rootfs/etc/passwd", "/rootfs/secret.txt", "/abs", "/abs/etc/passwd", "/leak.txt", "leak.txt", "/dangling", "/dangling/x", "/sub/deeper/up",
+		"/sub/deeper/up/outside/secret.txt", "/up", "/up/outside", "up/outside/etc/passwd", "/self", "/self/self/index.html", "/self/rootfs/etc", "/inner", "/inner/app.js",
+		"/missing", "/missing/file.txt", "/static/../rootfs/etc", "/rootfs/../index.html", "//rootfs//etc/", "/./rootfs/./etc/.", "/file.txt", "/app.js",
+		"/../outside/secret.txt", "/rootfs/../../outside", "/static/..", "/sub", "/sub/deeper/file.txt"}
+	n := 0
+	for _, b := range bases {
+		for _, p := range paths {
+			one(b, p)
+			n++
+		}
+	}
+	e.Stats["on_disk_cases"] = n
+	e.Stats["on_disk_bases"] = len(bases)
+	return nil
+}
+
 func runC17(e *hk.Env) error {
 	maxLen := 6
 	nRandom := 40000
@@ -246,6 +313,9 @@ func runC17(e *hk.Env) error {
 	}
 	sequences()
 	e.Stats["sequence_cases_first_pass"] = seqCases
+	if err := c17OnDisk(e, one); err != nil {
+		return err
+	}
 	c17Concurrent(e, one)
 
 	// ---- long paths: k repetitions of a depth-neutral unit, then an escape suffix (limits on the number of
